@@ -59,11 +59,14 @@ class FakeSock(object):
         return self.addr
 
     def send(self, data):
-        if self.closed or self.peer.closed or self.accept <= 0:
+        if self.closed or self.accept <= 0:
             raise socket.error('send failed')
         size = min(len(data), self.accept)
         self.sent += data[:size]
-        self.peer.inbox += data[:size]
+        if not self.peer.closed:
+            # like TCP: a write towards a peer that has already closed is still accepted locally
+            # (the octets go nowhere); the closure is learnt from the end-of-stream on the read side
+            self.peer.inbox += data[:size]
         return size
 
     def recv(self, size):
